@@ -17,7 +17,7 @@ Section Num.
   Variable F : Type.
   Variables f0 f1 : F.
   Variables fadd fsub fmul fdiv : F -> F -> F.
-  Variables fsqrt fexp fabs fln : F -> F.
+  Variables fsqrt fexp fln : F -> F.
   Variable fis0 : F -> bool.                       (* numpy [cov == 0] *)
   Variable ften : F.                               (* 10 *)
   Variable ftenth : F.                             (* 0.1 *)
@@ -129,7 +129,8 @@ Section Num.
     let random_variables := match r_new with Some r => r | None => r_old end in
     (canonicalize parameters random_variables, random_variables).
 
-  (* ---- estimation.py: _scale_matrix(A) given chol = np.linalg.cholesky(A) (oracle) ------------- *)
+  (* ---- estimation.py: _scale_matrix(A) given chol = np.linalg.cholesky(A) (oracle);
+     m_scale = 10 * (M1 - M2) + M3, signed since fix 859061b ------------------------------------ *)
   Definition scale_matrix (chol : fmatrix) : fmatrix :=
     let n := length chol in
     let M1 := tril chol in
@@ -137,7 +138,7 @@ Section Num.
     let v2 := map (fun x => fdiv x (fexp ftenth)) v1 in
     let M2 := diagm v1 in
     let M3 := diagm v2 in
-    let m_scale := ftab n n (fun i j => fadd (fabs (fmul ften (fsub (fget M1 i j) (fget M2 i j)))) (fget M3 i j)) in
+    let m_scale := ftab n n (fun i j => fadd (fmul ften (fsub (fget M1 i j) (fget M2 i j))) (fget M3 i j)) in
     (* m_scale[irows, icols] = m_scale[icols, irows] for the strict upper triangle *)
     ftab n n (fun i j => if i <? j then fget m_scale j i else fget m_scale i j).
 
